@@ -1,5 +1,5 @@
 SPECIFICATION Spec
-CONSTANTS Mode = "linear"  Variant = "ok"  Family = "mixed"  List = { }  Steps = 2  PairMod = 1
+CONSTANTS Mode = "linear"  Variant = "ok"  Family = "list"  List = { 1021013, 3081203 }  Steps = 2  PairMod = 1
           Extra = { 1002 }
 INVARIANT TypeOK
 INVARIANT Linear
